@@ -30,12 +30,13 @@ type TrustStore struct {
 	mu     sync.Mutex
 	Stores map[string][]*x509.Certificate
 	Errs   map[string]error
+	Empty  map[string]bool // stores that load without error and hold no certificate
 	Calls  []StoreCall
 	NoLog  bool // do not record calls (shared, long-lived instances)
 }
 
 func NewTrustStore() *TrustStore {
-	return &TrustStore{Stores: map[string][]*x509.Certificate{}, Errs: map[string]error{}}
+	return &TrustStore{Stores: map[string][]*x509.Certificate{}, Errs: map[string]error{}, Empty: map[string]bool{}}
 }
 
 func (t *TrustStore) Put(typ, name string, certs ...*x509.Certificate) *TrustStore {
@@ -52,6 +53,9 @@ func (t *TrustStore) GetCertificates(ctx context.Context, storeType truststore.T
 	key := string(storeType) + ":" + namedStore
 	if err, ok := t.Errs[key]; ok {
 		return nil, err
+	}
+	if t.Empty[key] {
+		return []*x509.Certificate{}, nil // a store that loads, and holds nothing
 	}
 	certs, ok := t.Stores[key]
 	if !ok || len(certs) == 0 {
